@@ -411,6 +411,47 @@ static void sc_threads_tls(void) {
 	p_uthread_local_free(tkey); tkey = NULL; p_uthread_local_free(k2);
 }
 
+/* socket built around a descriptor the caller opened: on success the socket owns it (freed = closed exactly once), on failure the
+ * caller still owns it (the library must not have closed it) */
+#include <sys/socket.h>
+#include <netinet/in.h>
+static void sc_sock_fromfd(void) {
+	int kind;
+	for (kind = 0; kind < 3; kind++) {
+		PError *err = NULL; PSocket *s; int fd = kind == 2 ? open("/dev/null", O_RDONLY) : socket(kind ? AF_INET6 : AF_INET, kind ? SOCK_STREAM : SOCK_DGRAM, 0);
+		if (fd < 0) continue;
+#ifdef WRAP_SYS_H
+		if (kind == 2) w_fd_note_open(fd);
+#endif
+		s = p_socket_new_from_fd(fd, &err); p_error_free(err); err = NULL;
+		if (!s) { if (fcntl(fd, F_GETFD) == -1) DAMAGE("failed p_socket_new_from_fd closed the caller's descriptor"); close(fd); continue; }
+		if (kind == 2) { DAMAGE("p_socket_new_from_fd accepted a descriptor that is not a socket"); p_socket_free(s); continue; }
+		if (p_socket_get_fd(s) != fd) DAMAGE("socket from descriptor reports another descriptor");
+		if (p_socket_get_family(s) != (kind ? P_SOCKET_FAMILY_INET6 : P_SOCKET_FAMILY_INET) || p_socket_get_type(s) != (kind ? P_SOCKET_TYPE_STREAM : P_SOCKET_TYPE_DATAGRAM))
+			DAMAGE("socket from descriptor reports family %d type %d", (int)p_socket_get_family(s), (int)p_socket_get_type(s));
+		{ PSocketAddress *la = p_socket_address_new_loopback(kind ? P_SOCKET_FAMILY_INET6 : P_SOCKET_FAMILY_INET, 0), *b = NULL;
+		  if (la && p_socket_bind(s, la, FALSE, &err)) { b = p_socket_get_local_address(s, &err); if (b && p_socket_address_get_port(b) == 0) DAMAGE("bound socket reports port 0"); }
+		  p_error_free(err); err = NULL; p_socket_address_free(b); p_socket_address_free(la); }
+		if (kind == 1) { (void)p_socket_close(s, &err); p_error_free(err); err = NULL; }
+		p_socket_free(s);
+		if (fcntl(fd, F_GETFD) != -1) { DAMAGE("descriptor still open after the socket that owned it was freed"); close(fd); }
+	}
+	{ PError *err = NULL; PSocket *s = p_socket_new_from_fd(-1, &err); if (s) { DAMAGE("socket from descriptor -1"); p_socket_free(s); } p_error_free(err); }
+}
+
+/* anonymous mappings through p_mem_mmap / p_mem_munmap */
+static void sc_mem_mmap(void) {
+	PError *err = NULL; unsigned char *m = p_mem_mmap(3 * 4096 + 17, &err), vec[8]; p_error_free(err); err = NULL;
+	if (m) {
+		memset(m, 0x7e, 3 * 4096 + 17);
+		if (!p_mem_munmap(m, 3 * 4096 + 17, &err)) DAMAGE("p_mem_munmap of a mapping obtained from p_mem_mmap failed");
+		else if (mincore((void *)m, 4 * 4096, vec) == 0) DAMAGE("mapping still present after p_mem_munmap");
+		p_error_free(err); err = NULL;
+	}
+	m = p_mem_mmap(0, &err); p_error_free(err); err = NULL; if (m) (void)p_mem_munmap(m, 0, NULL);
+	(void)p_mem_munmap(NULL, 4096, &err); p_error_free(err);
+}
+
 static int in_reinit;
 static void sc_init_shutdown(void) { PMemVTable vt = va_vtable(); in_reinit = 1; p_libsys_shutdown(); p_libsys_init_full(&vt); }
 
@@ -420,6 +461,7 @@ static struct { const char *name; void (*fn)(void); } SC[] = {
 	{ "sockaddr", sc_sockaddr }, { "socket_tcp", sc_socket_tcp }, { "socket_udp", sc_socket_udp }, { "thread", sc_thread }, { "thread_foreign", sc_thread_foreign },
 	{ "locks", sc_locks }, { "profiler", sc_profiler }, { "libloader", sc_libloader }, { "file", sc_file },
 	{ "sock_refused", sc_sock_refused }, { "sock_timeouts", sc_sock_timeouts }, { "sock_bind_used", sc_sock_bind_used }, { "ipc_multi", sc_ipc_multi }, { "threads_tls", sc_threads_tls },
+	{ "sock_fromfd", sc_sock_fromfd }, { "mem_mmap", sc_mem_mmap },
 	{ "init_shutdown", sc_init_shutdown },
 };
 #define NSC ((int)(sizeof SC / sizeof SC[0]))
